@@ -16,6 +16,7 @@ import (
 	"net"
 	"net/http"
 	"net/http/httptest"
+	"os"
 	"sort"
 	"strings"
 	"sync"
@@ -25,6 +26,7 @@ import (
 	envoy_core "github.com/envoyproxy/go-control-plane/envoy/config/core/v3"
 	envoy_auth "github.com/envoyproxy/go-control-plane/envoy/service/auth/v3"
 	"github.com/go-jose/go-jose/v4"
+	"github.com/rs/zerolog"
 	"google.golang.org/grpc"
 	"google.golang.org/grpc/credentials/insecure"
 	"google.golang.org/grpc/test/bufconn"
@@ -401,14 +403,21 @@ func getWorlds() (*worlds, error) {
 		simnet.Install(w.net)
 		var err error
 		// the schema names this type 'www-authenticate' while the loader knows 'www_authenticate': add it after loading
+		// robust-sim runs with logging enabled (into io.Discard): error values are rendered by the log calls of the
+		// pipeline, so defects in Error()/String() methods of error types become reachable
+		var logger *zerolog.Logger
+		if os.Getenv("VERIF_HARNESS") == "robust-sim" {
+			lg := zerolog.New(io.Discard).Level(zerolog.DebugLevel)
+			logger = &lg
+		}
 		addWWW := func(c *config.Configuration) {
 			c.Prototypes.ErrorHandlers = append(c.Prototypes.ErrorHandlers, config.Mechanism{ID: "www", Type: "www_authenticate", Config: map[string]any{"realm": "sim"}})
 		}
-		if w.decision, err = world.Build(world.Options{ConfigYAML: catalogueYAML(), Mode: config.DecisionMode, Cache: &noop.Cache{}, Mutate: addWWW}); err != nil {
+		if w.decision, err = world.Build(world.Options{ConfigYAML: catalogueYAML(), Mode: config.DecisionMode, Cache: &noop.Cache{}, Mutate: addWWW, Logger: logger}); err != nil {
 			worldErr = err
 			return
 		}
-		if w.proxy, err = world.Build(world.Options{ConfigYAML: catalogueYAML(), Mode: config.ProxyMode, Cache: &noop.Cache{}, Mutate: addWWW}); err != nil {
+		if w.proxy, err = world.Build(world.Options{ConfigYAML: catalogueYAML(), Mode: config.ProxyMode, Cache: &noop.Cache{}, Mutate: addWWW, Logger: logger}); err != nil {
 			worldErr = err
 			return
 		}
